@@ -145,7 +145,11 @@ class MultiAgentProblem(  # type: ignore[misc]
         return res
 
     def clone(self):
-        new_p = MultiAgentProblem(self._name, self._env)
+        # the defaults are given to the constructor because the MAEnvironment and the
+        # Agents created for the new problem read them when they are constructed
+        new_p = MultiAgentProblem(
+            self._name, self._env, initial_defaults=self._initial_defaults.copy()
+        )
         new_p.ma_environment._fluents = self.ma_environment._fluents.copy()
         new_p.ma_environment._fluents_defaults = (
             self.ma_environment._fluents_defaults.copy()
@@ -156,7 +160,6 @@ class MultiAgentProblem(  # type: ignore[misc]
         new_p._objects = self._objects[:]
         new_p._initial_value = self._initial_value.copy()
         new_p._goals = self._goals[:]
-        new_p._initial_defaults = self._initial_defaults.copy()
         return new_p
 
     def has_name(self, name: str) -> bool:
